@@ -298,6 +298,31 @@ def o125(ctx):
     ctx.count(1)
     if not (isinstance(sg, ast.Name) and sg.id == fn.args.args[1].arg):
         ctx.finding(q, c, "the Gaussian width must be the requested sigma", c, m)
+    # the soft mask is the Gaussian's result itself: nothing rescales, clips or replaces its values afterwards (a mask whose solid fills the box,
+    # or one made of a few voxels, has no 0 or no 1 in it -- min-max scaling changes exactly the core value the property speaks about)
+    def is_blur(e_):
+        if e_ is c:
+            return True
+        if isinstance(e_, ast.Name):
+            asg = [a_ for a_ in ast.walk(fn) if isinstance(a_, (ast.Assign, ast.AugAssign)) and any(
+                isinstance(t_, ast.Name) and t_.id == e_.id for t_ in (a_.targets if isinstance(a_, ast.Assign) else [a_.target]))]
+            return len(asg) == 1 and isinstance(asg[0], ast.Assign) and asg[0].value is c
+        return False
+
+    rets = [r_ for r_ in ast.walk(fn) if isinstance(r_, ast.Return) and r_.value is not None]
+    ctx.count(1, {"returns of add_gaussian": [norm_text(r_)[:60] for r_ in rets]})
+    for r_ in rets:
+        v_ = r_.value
+        if is_blur(v_) or (isinstance(v_, ast.Name) and v_.id == fn.args.args[0].arg):
+            continue
+        uses_blur = any(is_blur(x_) for x_ in ast.walk(v_))
+        arith = any(isinstance(x_, ast.BinOp) for x_ in ast.walk(v_)) or any(
+            isinstance(x_, ast.Call) and (ctx.prog.resolve(m, x_.func) or "").split(".")[-1] in ("nan_to_num", "clip", "where", "round", "minimum", "maximum")
+            for x_ in ast.walk(v_))
+        if uses_blur and not arith:
+            raise Unsupported("add_gaussian returns the blurred mask through a call the rule does not know", r_)
+        ctx.finding(q, r_, f"add_gaussian returns `{norm_text(v_)[:80]}`, not the Gaussian's result: values of the soft mask are rescaled / replaced "
+                    "after the blur, so the core of a mask is no longer the blurred solid's value there (1 within 1e-3 when blurred outwards)", r_, m)
     for k in c.keywords:
         if k.arg in ("mode", "preserve_range", "channel_axis", "cval") and not (isinstance(k.value, ast.Constant) and k.value.value in (None, "nearest")):
             ctx.finding(q, c, f"option {k.arg}={ast.unparse(k.value)} on the Gaussian changes how the box border is treated: with the default "
